@@ -54,6 +54,7 @@ Measured (default 16 workers):
               ~485 CPU-s (32 s wall nearly idle before the round-4 parts, which add ~10 CPU-s; 93 s wall at load 55-68)
     thorough  not re-run after rounds 3 / 4 (last: 14 592 182 evaluations, ~3 400 CPU-s, 583 s wall under load)
 """
+import io
 import itertools
 import os
 
@@ -292,6 +293,65 @@ def check_text(s, aset, res, opts=None, wrapper=None):
                         "Text(%r) rendered at its widest line (%d cells) gives %r, the newline-delimited lines are %r"
                         % (s, line, got, want))
         res.sig(("wrap", min(len(want), 3), ok, bool(opts), wrapper), nontrivial=len(want) > 1 or " " in s)
+
+
+# ------------------------------------------------------------------ str part: plain strings x console switches
+# A plain str is turned into Text by the CONSOLE (markup / emoji / highlight switches): its measurement must be the
+# measurement of what that console prints for it. Every string of the menu x markup on/off x emoji on/off.
+STR_MENU = ["plain words", "[bold]important[/bold] note", "a [b]c", "[link=u]k[/link] z", ":smiley: x", "x :no_such_emoji: y",
+            "[red]x", "list[int] y", "a\n[i]bb[/i] c", ""]
+STR_A = [200, 12, 5]
+_STR_CON = {}
+
+
+def _str_console(markup, emoji):
+    con = _STR_CON.get((markup, emoji))
+    if con is None:
+        from rich.console import Console
+        con = Console(file=io.StringIO(), width=200, height=50, force_terminal=True, color_system="truecolor",
+                      legacy_windows=False, _environ={}, markup=markup, emoji=emoji, highlight=False)
+        _STR_CON[(markup, emoji)] = con
+    return con
+
+
+def check_str(s, markup, emoji, res):
+    from rich.measure import Measurement
+    con = _str_console(markup, emoji)
+    base = {"part": "str", "s": s, "markup": markup, "emoji": emoji}
+    try:
+        shown = gen.render_text_lines(con, s, 200)          # what this console prints for s, unwrapped
+    except Exception as e:  # noqa: BLE001
+        res.evaluations += 1
+        if not markup:
+            res.violate(c01.crash_key(e), base, "render of %r: %s: %s" % (s, type(e).__name__, e))
+        return                                              # a MarkupError of broken markup is not C09's business
+    text = "\n".join(shown)
+    if not markup and not emoji and text.rstrip(" ") != s.rstrip(" ") and s:
+        res.violate("str/verbatim", base, "Console(markup=False, emoji=False) prints %r as %r" % (s, text))
+    word, line = _ref(text)
+    for A in STR_A:
+        res.evaluations += 1
+        try:
+            m = Measurement.get(con, s, A)
+        except Exception as e:  # noqa: BLE001
+            res.violate(c01.crash_key(e), dict(base, A=A), "Measurement.get: %s: %s" % (type(e).__name__, e))
+            continue
+        prob = _range_problem(m, A)
+        if prob:
+            res.violate("range/%s/str" % prob, dict(base, A=A), "Measurement.get(%r, %d) = %r" % (s, A, tuple(m)))
+            continue
+        if m[1] != min(line, A):
+            res.violate("str/max", dict(base, A=A), "Measurement.get(console(markup=%r, emoji=%r), %r, %d).maximum = %d; the console prints %r, "
+                        "widest line %d cells" % (markup, emoji, s, A, m[1], text, min(line, A)))
+        if word is not None and m[0] != min(word, A):
+            res.violate("str/min", dict(base, A=A), "Measurement.get(console(markup=%r, emoji=%r), %r, %d).minimum = %d; the console prints %r, "
+                        "widest word %d cells" % (markup, emoji, s, A, m[0], text, min(word, A)))
+        if m[1] >= 1 and A >= line:
+            got = gen.render_text_lines(con, s, m[1])
+            if [g.rstrip(" ") for g in got] != [w.rstrip(" ") for w in shown]:
+                res.violate("str/wrap-at-max", dict(base, A=A), "%r rendered at its reported maximum %d gives %r, unwrapped it is %r"
+                            % (s, m[1], got, shown))
+        res.sig(("str", markup, emoji, text != s, A < line), nontrivial=text != s or not (markup and emoji))
 
 
 # ------------------------------------------------------------------ history part
@@ -591,6 +651,7 @@ def plan(tier, seed):
     shards += [{"part": "textopt", "i": i, "n": no} for i in range(no)]
     nw = 2 if tier == "quick" else 16
     shards += [{"part": "textws", "i": i, "n": nw} for i in range(nw)]
+    shards += [{"part": "str"}]
     shards += [{"part": "bars", "W": W} for W in BAR_WIDTHS_C09]
     nh = 4 if tier == "quick" else 32
     shards += [{"part": "history", "i": i, "n": nh} for i in range(nh)]
@@ -667,6 +728,12 @@ def run_shard(sh, tier, seed):
                     continue
                 check_text("".join(tup), A_SHORT, res)
                 res.count("strings_ws")
+    elif part == "str":
+        for s_ in STR_MENU:
+            for markup in (True, False):
+                for emoji in (True, False):
+                    check_str(s_, markup, emoji, res)
+                    res.count("str_cases")
     elif part == "bars":
         for case in c01.bar_cases(sh["W"]):
             if case["console"] == "utf8":
@@ -735,6 +802,8 @@ def replay(case):
         return [("fit/" + k if not k.startswith("crash/") else k, v[2]) for k, v in sorted(res.violations.items())]
     elif part == "history":
         check_history(case, res)
+    elif part == "str":
+        check_str(case["s"], case["markup"], case["emoji"], res)
     elif part == "text":
         aset = [case["A"]] if "A" in case else []
         check_text(case["s"], aset, res, opts=case.get("opts") or None, wrapper=case.get("wrapper"))
